@@ -987,8 +987,12 @@ class Env:
         seen = set()
         self.avail_after = []       # get_available_source_ids() after every call (the default of source_ids)
         self.envs_at = []           # the log the loader has open when each call is made
+        # results are the caller's: what an earlier read() returned is looked at again after every later call and must still be
+        # what it was when it was returned (with a fresh loader per read it could not change) - [index of the call, result, text, env, call]
+        held = []
+        self.held_changes = []
         cur = self
-        for c in calls:
+        for ci, c in enumerate(calls):
             if c.get('reopen'):
                 if c['reopen'] == 'other' and self.alt is not None:
                     cur = self.alt if cur is self else self
@@ -1008,6 +1012,16 @@ class Env:
                     seen.add(id(v))
                 self._keep = getattr(self, '_keep', [])
                 self._keep.append(res)      # keep objects alive so that ids stay distinct
+            for h in list(held):
+                try:
+                    now = canon_result(h[3].F, h[1], h[3].order(h[4]))
+                except Exception as e:
+                    now = 'E:%s while reading the kept result' % type(e).__name__
+                if now != h[2]:
+                    self.held_changes.append((h[0], ci, h[2], now))
+                    held.remove(h)
+            if isinstance(res, dict):
+                held.append((ci, res, text, cur, c))
             cur.assert_static(ld)
         self._keep = []
         return out, hits
@@ -1687,6 +1701,15 @@ def one_history(ctx, F, env, hist, reg, drops, lines, pending, model=True):
     out, hits = env.run_history(hist)
     avail_after = list(env.avail_after)
     envs_at = list(env.envs_at)
+    ctx.count('kept_results_reread', sum(range(len(hist))))
+    if env.held_changes:
+        j, i, was, now = env.held_changes[0]
+        small = hist[:i + 1]
+        ctx.violation('C12/result-of-an-earlier-read-changed-by-a-later-read',
+                      'the result returned by call #%d read(%s) was %s when it was returned; after call #%d read(%s) the same object '
+                      'holds %s (the caller kept it; with a fresh loader per read it cannot change)'
+                      % (j + 1, describe(hist[j]), brief(was), i + 1, describe(hist[i]), brief(now)), replay_obj(env, small))
+        return
     ctx.count('calls', len(hist))
     ctx.count('cache_hits_observed', hits)
     for c in hist:
